@@ -2,6 +2,7 @@
 import sys
 
 from sa import crosslist as XL
+from sa import rules_state as RSTATE
 from sa import rules_r6b as R6B
 from sa import rules_r6 as R6
 from sa import report, partial as P, rules_read as RD, rules_emit as RE
@@ -64,6 +65,7 @@ def run(ctx, repo):
     ctx.call(RO.r_option_normalised, repo)
     ctx.call(R6B.r_flow_plain_agree, repo)
     ctx.call(RX.r_simple_key_fits, repo)
+    ctx.call(RSTATE.r_directives_reset, repo)
     XL.emit_readable(ctx, repo)
 
 
